@@ -64,6 +64,7 @@ def write_replay(prop: str, n: int, data: dict[str, Any]) -> str:
 
 
 def main() -> int:
+    sys.unraisablehook = lambda *a: None      # stub coroutines at exit
     ap = argparse.ArgumentParser()
     ap.add_argument('prop')
     ap.add_argument('--tier', default=os.environ.get('VERIF_TIER', 'quick'))
